@@ -121,20 +121,22 @@ void Caller::pop_column(){
 		result_pileup_kmers= none_dict;
 	}
 	this->ref_pos += 1;
-	std::pair<int,int> var=variantslist.front();
+	bool have_var= !variantslist.empty();
+	bool have_next_var= variantslist.size()>1;
+	std::pair<int,int> var= have_var ? variantslist.front() : std::pair<int,int>(0,1);
 	int variantposition=var.first;
 	int var_length= var.second-1;
 	int varstart= variantposition-window;
 	int varend= variantposition+var_length+window+this->k-1;
 	//as kmer end positions are being recorded, we skip first k-1 kmers after the window as they would be starting inside
-	std::pair<int,int> next_var= variantslist[1];
+	std::pair<int,int> next_var= have_next_var ? variantslist[1] : std::pair<int,int>(0,1);
 	int next_variantposition= next_var.first;
 	int next_var_length= next_var.second-1;
-	if (result_ref_pos>=varstart and result_ref_pos<=varend){
+	if (have_var and result_ref_pos>=varstart and result_ref_pos<=varend){
 		//if position inside variant window don't output anything
 		;
 	}
-	else if (int(variantslist.size())>0 and result_ref_pos>= (next_variantposition-window) and result_ref_pos<= (next_variantposition+next_var_length+window)){
+	else if (have_next_var and result_ref_pos>= (next_variantposition-window) and result_ref_pos<= (next_variantposition+next_var_length+window)){
 		//if reference position such that it is not inside the current variant window but is inside the next
 		 //it is safe to remove the first variant as we know all readkmers would be further to the right
 			variantslist.pop_front();
